@@ -161,29 +161,31 @@ type blk struct {
 	conflicts uint32
 	par       string
 	okTxs     []thor.Bytes32 // ids of non-reverted txs on the chain ending here (dependency candidates)
+	badTxs    []thor.Bytes32 // ids of reverted txs on the chain ending here
 	lateDone  bool
 	world     *world
 }
 
 type run struct {
-	idx        int
-	cfg        Cfg
-	net        *sim.Net
-	rng        *rand.Rand
-	env        *txkit.Env
-	evs        []trace.Ev
-	blocks     map[string]*blk
-	order      []string
-	inst       map[string]*consensus.Consensus
-	res        *results
-	shapes     map[string]bool
-	pos        bool
-	endIdx     func(m int) int // dev index of the endorsor of master m
-	bank       int
-	user       int
-	nextID     int
-	pruned     int
-	nodeBroken [2]bool
+	idx         int
+	cfg         Cfg
+	net         *sim.Net
+	rng         *rand.Rand
+	env         *txkit.Env
+	evs         []trace.Ev
+	blocks      map[string]*blk
+	order       []string
+	inst        map[string]*consensus.Consensus
+	res         *results
+	shapes      map[string]bool
+	pos         bool
+	endIdx      func(m int) int // dev index of the endorsor of master m
+	bank        int
+	user        int
+	nextID      int
+	depOverride *thor.Bytes32 // set while a "dep" kind is concretised
+	pruned      int
+	nodeBroken  [2]bool
 }
 
 func (r *run) masterAddr(m int) thor.Address   { return r.net.Devs[m-1].Address }
@@ -608,7 +610,10 @@ func (r *run) concretise(t Tx, parent *blk) (*tx.Transaction, string) {
 		cls = append(cls, txkit.EnergyTransfer(r.net.Devs[r.bank].Address, big.NewInt(int64(1+r.rng.Intn(9)))))
 		fl = append(fl, "multiclause")
 	}
-	if len(parent.okTxs) > 0 && r.rng.Intn(4) == 0 {
+	if r.depOverride != nil {
+		o.DependsOn = r.depOverride
+		fl = append(fl, "dependent")
+	} else if len(parent.okTxs) > 0 && r.rng.Intn(4) == 0 {
 		d := parent.okTxs[r.rng.Intn(len(parent.okTxs))]
 		o.DependsOn = &d
 		fl = append(fl, "dependent")
@@ -633,7 +638,56 @@ func (r *run) pack(name, par string, p, now int, txs []Tx) *blk {
 	ph := parent.b.Header()
 	var real []*tx.Transaction
 	flav := []string{}
-	for _, t := range txs {
+	// kind "dep" (v = 1..5): a plain tx whose DependsOn names 1 a successful tx earlier in THIS block, 2 a reverted tx earlier
+	// in this block, 3 a successful / 4 a reverted tx of an earlier block on this chain, 5 an unknown id.  The rule
+	// (Production!DepAdoptable): adoptable iff the dependency is found (earlier on this chain or in this flow) and not reverted.
+	type depFact struct {
+		V                        int
+		Found, Reverted, Adopted bool
+	}
+	deps := map[int]*depFact{}
+	for i, t := range txs {
+		if t.K == "dep" {
+			var target *thor.Bytes32
+			f := &depFact{V: t.V}
+			pick := func(kind string) *thor.Bytes32 {
+				for j := i - 1; j >= 0; j-- {
+					if txs[j].K == kind {
+						id := real[j].ID()
+						return &id
+					}
+				}
+				return nil
+			}
+			switch t.V {
+			case 1:
+				if target = pick("plain"); target != nil {
+					f.Found = true
+				}
+			case 2:
+				if target = pick("reverted"); target != nil {
+					f.Found, f.Reverted = true, true
+				}
+			case 3:
+				if n := len(parent.okTxs); n > 0 {
+					target, f.Found = &parent.okTxs[r.rng.Intn(n)], true
+				}
+			case 4:
+				if n := len(parent.badTxs); n > 0 {
+					target, f.Found, f.Reverted = &parent.badTxs[r.rng.Intn(n)], true, true
+				}
+			}
+			if target == nil { // nothing of that sort at hand (or v = 5): an id nobody knows
+				id := thor.Blake2b([]byte(fmt.Sprintf("unknown-dep-%s-%d", name, i)))
+				target, f.Found, f.Reverted = &id, false, false
+			}
+			deps[i] = f
+			r.depOverride = target
+			x, fl := r.concretise(Tx{"plain", 0, 0}, parent)
+			r.depOverride = nil
+			real, flav = append(real, x), append(flav, fl)
+			continue
+		}
 		x, f := r.concretise(t, parent)
 		real = append(real, x)
 		flav = append(flav, f)
@@ -656,10 +710,22 @@ func (r *run) pack(name, par string, p, now int, txs []Tx) *blk {
 	}
 	refused := map[int]bool{}
 	for _, rf := range m.Refused {
-		if txs[rf.Index].K != "abort" {
+		if k := txs[rf.Index].K; k != "abort" && k != "dep" {
 			harnessError("packer refused a template transaction %+v: %v", txs[rf.Index], rf.Err)
 		}
 		refused[rf.Index] = true
+	}
+	depLog := []map[string]any{}
+	var depBreach []string
+	for i := range txs {
+		if f := deps[i]; f != nil {
+			f.Adopted = !refused[i]
+			depLog = append(depLog, map[string]any{"v": f.V, "found": f.Found, "reverted": f.Reverted, "adopted": f.Adopted})
+			if f.Adopted != (f.Found && !f.Reverted) {
+				depBreach = append(depBreach, fmt.Sprintf("tx #%d depends on a tx that is found=%v reverted=%v, the packer adopted=%v", i, f.Found, f.Reverted, f.Adopted))
+			}
+			r.res.Kinds[fmt.Sprintf("dep%d", f.V)]++
+		}
 	}
 	for i, t := range txs {
 		if t.K == "abort" && !refused[i] {
@@ -673,7 +739,7 @@ func (r *run) pack(name, par string, p, now int, txs []Tx) *blk {
 		for i := range txs {
 			if !refused[i] {
 				real2, txs2, flav2 = append(real2, real[i]), append(txs2, txs[i]), append(flav2, flav[i])
-			} else {
+			} else if txs[i].K == "abort" {
 				r.res.Kinds["abort"]++
 			}
 		}
@@ -691,13 +757,18 @@ func (r *run) pack(name, par string, p, now int, txs []Tx) *blk {
 	must(err)
 	b := &blk{name: name, b: m.Block, sum: sum, conflicts: m.Conflicts, par: par}
 	b.okTxs = append(b.okTxs, parent.okTxs...)
+	b.badTxs = append(b.badTxs, parent.badTxs...)
 	reverted := 0
 	for i, rc := range m.Receipts {
 		if !rc.Reverted {
 			b.okTxs = append(b.okTxs, real[i].ID())
 		} else {
+			b.badTxs = append(b.badTxs, real[i].ID())
 			reverted++
 		}
+	}
+	if len(b.badTxs) > 20 {
+		b.badTxs = b.badTxs[len(b.badTxs)-20:]
 	}
 	if len(b.okTxs) > 40 {
 		b.okTxs = b.okTxs[len(b.okTxs)-40:]
@@ -711,6 +782,9 @@ func (r *run) pack(name, par string, p, now int, txs []Tx) *blk {
 	var gas uint64
 	for _, rc := range m.Receipts {
 		gas += rc.GasUsed
+	}
+	for _, d := range depBreach {
+		r.violate("packer:adopt-dependency", name, "packer", d)
 	}
 	if gas != h.GasUsed() {
 		r.violate("packer:gas", name, "packer", fmt.Sprintf("packer's receipts sum to %d gas, header says %d", gas, h.GasUsed()))
@@ -734,7 +808,7 @@ func (r *run) pack(name, par string, p, now int, txs []Tx) *blk {
 		}
 	}
 	ev := trace.Ev{"e": "Pack", "b": name, "par": par, "p": p, "now": now, "slot": slot, "num": h.Number(),
-		"score": h.TotalScore() - ph.TotalScore(), "benef": r.addrID(h.Beneficiary()), "opt": opt, "txs": txsJSON(txs), "cord": r.cord(b),
+		"score": h.TotalScore() - ph.TotalScore(), "benef": r.addrID(h.Beneficiary()), "opt": opt, "deps": depLog, "txs": txsJSON(txs), "cord": r.cord(b),
 		"post": b.world, "hroot": h.StateRoot().String()[2:10], "hrroot": h.ReceiptsRoot().String()[2:10], "hgas": h.GasUsed(),
 		"flav": flav}
 	r.evs = append(r.evs, ev)
@@ -1077,6 +1151,12 @@ func (r *run) randomTxs(w *world, num uint32, maxEvent int) []Tx {
 		}
 		txs = append(txs[:pos], append([]Tx{{k, 0, 0}}, txs[pos:]...)...)
 	}
+	if r.rng.Intn(3) == 0 { // dependencies, also inside this block
+		txs = append(txs, Tx{"dep", 0, 1 + r.rng.Intn(5)})
+		if r.rng.Intn(2) == 0 {
+			txs = append(txs, Tx{"dep", 0, 1 + r.rng.Intn(5)})
+		}
+	}
 	return txs
 }
 
@@ -1281,6 +1361,8 @@ func directed() []Behaviour {
 		chain("poa-max-proposers-"+gal, poa, Step{}, Step{Txs: []Tx{{"mbp", 0, 2}}}, Step{P: 1}, Step{P: 2, Now: 2}, Step{Txs: []Tx{{"mbp", 0, 3}}}, Step{P: 3}, Step{})
 		chain("poa-delayed-sibling-"+gal, poa, Step{}, Step{}, Step{Now: 3}, Step{Par: 2}, Step{Par: 4}, Step{Par: 3}, Step{Par: 5, Now: 2}, Step{Par: 5},
 			Step{Par: 8})
+		chain("poa-dependencies-"+gal, poa, Step{Txs: []Tx{{"plain", 0, 0}, {"reverted", 0, 0}, {"dep", 0, 1}, {"dep", 0, 2}, {"dep", 0, 5}}},
+			Step{Txs: []Tx{{"dep", 0, 3}, {"dep", 0, 4}, {"reverted", 0, 0}, {"dep", 0, 2}, {"plain", 0, 0}, {"dep", 0, 1}}}, Step{Txs: []Tx{{"dep", 0, 4}, {"dep", 0, 3}}})
 		chain("poa-reverted-and-plain-"+gal, poa, Step{Txs: []Tx{{"reverted", 0, 0}, {"plain", 0, 0}}}, Step{Txs: []Tx{{"add", 1, 0}}}, Step{Txs: []Tx{{"out", 4, 0}}}, Step{P: 2, Now: 3}, Step{})
 	}
 	return out
